@@ -273,7 +273,7 @@ def model_worker(job):
                     # Undefined behaviour in the program under test (dangling access): what a re-execution observes
                     # depends on what the dead memory holds.  Accept any violation of the re-execution for shrinking and
                     # keep the class of the first execution; if nothing reproduces, report the run unshrunk.
-                    ub = ('sanitizer:memory-error', 'crash:')
+                    ub = ('sanitizer:memory-error', 'sanitizer:undefined-behaviour', 'sanitizer:tsan-other', 'crash:')
                     res2 = worldA.run_tapes(mb, tapes.render(run))[0]
                     try:
                         vs2 = prof['judge'](mb, run, res2)
